@@ -260,7 +260,13 @@ class Sim:
                     self.n_interrupts += 1
                     intr = Interrupt(token.serial)
                     token.expect_interrupt = intr
-                    got = coro.throw(intr)
+                    try:
+                        got = coro.throw(intr)
+                    finally:
+                        if token.expect_interrupt is intr:
+                            # whatever happened, the throw never arrived at the awaitable that was suspended
+                            token.expect_interrupt = None
+                            self.breach("interrupt_not_delivered_to_awaitable", token.party)
                 else:
                     task.token = None
                     got = coro.send(token.reply)
